@@ -1628,15 +1628,22 @@ package ucfg
 
 // ---------------------------------------------------------------- C04: the built-in validators against their documentation
 
+// derefAny(i): the value behind the pointers and interfaces of i (nil when a nil pointer is met on the way): validators
+// judge the value a field holds, whether it is stored directly or behind a pointer
+//@ ghost func derefAny(i interface{}) interface{}
+//@ axiom [derefany] forall i interface{} :: i == nil ==> derefAny(i) == nil
+//@ axiom [derefany] forall i interface{} :: i != nil && anyKind(i) != 22 && anyKind(i) != 20 ==> derefAny(i) == i
+
 //@ func validatePositive :: v, _ -> result
 //@ props C04
 //@ mode bv
 //@ pure
-//@ ensures [nil] v == nil ==> result == nil
-//@ ensures [duration] typeof(v) == time.Duration ==> (result == nil) == (v.(time.Duration) >= 0)
-//@ ensures [int] v != nil && typeof(v) != time.Duration && 2 <= anyKind(v) && anyKind(v) <= 6 ==> (result == nil) == (anyInt(v) >= 0)
-//@ ensures [float] v != nil && typeof(v) != time.Duration && (anyKind(v) == 13 || anyKind(v) == 14) ==> (result == nil) == (anyFloat(v) >= 0)
-//@ ensures [other] v != nil && typeof(v) != time.Duration && !(2 <= anyKind(v) && anyKind(v) <= 6) && anyKind(v) != 13 && anyKind(v) != 14 ==> result == nil
+//@ uses derefany
+//@ ensures [nil] derefAny(v) == nil ==> result == nil
+//@ ensures [duration] typeof(derefAny(v)) == time.Duration ==> (result == nil) == (derefAny(v).(time.Duration) >= 0)
+//@ ensures [int] derefAny(v) != nil && typeof(derefAny(v)) != time.Duration && 2 <= anyKind(derefAny(v)) && anyKind(derefAny(v)) <= 6 ==> (result == nil) == (anyInt(derefAny(v)) >= 0)
+//@ ensures [float] derefAny(v) != nil && typeof(derefAny(v)) != time.Duration && (anyKind(derefAny(v)) == 13 || anyKind(derefAny(v)) == 14) ==> (result == nil) == (anyFloat(derefAny(v)) >= 0)
+//@ ensures [other] derefAny(v) != nil && typeof(derefAny(v)) != time.Duration && !(2 <= anyKind(derefAny(v)) && anyKind(derefAny(v)) <= 6) && anyKind(derefAny(v)) != 13 && anyKind(derefAny(v)) != 14 ==> result == nil
 
 //@ ghost func p2dOk(param string) bool
 //@ ghost func p2dVal(param string) time.Duration
@@ -1658,24 +1665,26 @@ package ucfg
 //@ props C04
 //@ mode bv
 //@ pure
-//@ ensures [nil] v == nil ==> result == nil
-//@ ensures [duration] typeof(v) == time.Duration && p2dOk(param) ==> (result == nil) == (v.(time.Duration) >= p2dVal(param))
-//@ ensures [duration_badparam] typeof(v) == time.Duration && !p2dOk(param) ==> result != nil
-//@ ensures [int] v != nil && typeof(v) != time.Duration && 2 <= anyKind(v) && anyKind(v) <= 6 && parsesInt(param) ==> (result == nil) == (anyInt(v) >= intOf(param))
-//@ ensures [uint] v != nil && typeof(v) != time.Duration && 7 <= anyKind(v) && anyKind(v) <= 11 && parsesUint(param) ==> (result == nil) == (anyUint(v) >= uintOf(param))
-//@ ensures [float] v != nil && typeof(v) != time.Duration && (anyKind(v) == 13 || anyKind(v) == 14) && parsesFloat(param) ==> (result == nil) == (anyFloat(v) >= floatOf(param))
-//@ ensures [badparam] v != nil && typeof(v) != time.Duration && ((2 <= anyKind(v) && anyKind(v) <= 6 && !parsesInt(param)) || (7 <= anyKind(v) && anyKind(v) <= 11 && !parsesUint(param)) || ((anyKind(v) == 13 || anyKind(v) == 14) && !parsesFloat(param))) ==> result != nil
+//@ uses derefany
+//@ ensures [nil] derefAny(v) == nil ==> result == nil
+//@ ensures [duration] typeof(derefAny(v)) == time.Duration && p2dOk(param) ==> (result == nil) == (derefAny(v).(time.Duration) >= p2dVal(param))
+//@ ensures [duration_badparam] typeof(derefAny(v)) == time.Duration && !p2dOk(param) ==> result != nil
+//@ ensures [int] derefAny(v) != nil && typeof(derefAny(v)) != time.Duration && 2 <= anyKind(derefAny(v)) && anyKind(derefAny(v)) <= 6 && parsesInt(param) ==> (result == nil) == (anyInt(derefAny(v)) >= intOf(param))
+//@ ensures [uint] derefAny(v) != nil && typeof(derefAny(v)) != time.Duration && 7 <= anyKind(derefAny(v)) && anyKind(derefAny(v)) <= 11 && parsesUint(param) ==> (result == nil) == (anyUint(derefAny(v)) >= uintOf(param))
+//@ ensures [float] derefAny(v) != nil && typeof(derefAny(v)) != time.Duration && (anyKind(derefAny(v)) == 13 || anyKind(derefAny(v)) == 14) && parsesFloat(param) ==> (result == nil) == (anyFloat(derefAny(v)) >= floatOf(param))
+//@ ensures [badparam] derefAny(v) != nil && typeof(derefAny(v)) != time.Duration && ((2 <= anyKind(derefAny(v)) && anyKind(derefAny(v)) <= 6 && !parsesInt(param)) || (7 <= anyKind(derefAny(v)) && anyKind(derefAny(v)) <= 11 && !parsesUint(param)) || ((anyKind(derefAny(v)) == 13 || anyKind(derefAny(v)) == 14) && !parsesFloat(param))) ==> result != nil
 
 //@ func validateMax :: v, param -> result
 //@ props C04
 //@ mode bv
 //@ pure
-//@ ensures [nil] v == nil ==> result == nil
-//@ ensures [duration] typeof(v) == time.Duration && p2dOk(param) ==> (result == nil) == (v.(time.Duration) <= p2dVal(param))
-//@ ensures [duration_badparam] typeof(v) == time.Duration && !p2dOk(param) ==> result != nil
-//@ ensures [int] v != nil && typeof(v) != time.Duration && 2 <= anyKind(v) && anyKind(v) <= 6 && parsesInt(param) ==> (result == nil) == (anyInt(v) <= intOf(param))
-//@ ensures [uint] v != nil && typeof(v) != time.Duration && 7 <= anyKind(v) && anyKind(v) <= 11 && parsesUint(param) ==> (result == nil) == (anyUint(v) <= uintOf(param))
-//@ ensures [float] v != nil && typeof(v) != time.Duration && (anyKind(v) == 13 || anyKind(v) == 14) && parsesFloat(param) ==> (result == nil) == (anyFloat(v) <= floatOf(param))
+//@ uses derefany
+//@ ensures [nil] derefAny(v) == nil ==> result == nil
+//@ ensures [duration] typeof(derefAny(v)) == time.Duration && p2dOk(param) ==> (result == nil) == (derefAny(v).(time.Duration) <= p2dVal(param))
+//@ ensures [duration_badparam] typeof(derefAny(v)) == time.Duration && !p2dOk(param) ==> result != nil
+//@ ensures [int] derefAny(v) != nil && typeof(derefAny(v)) != time.Duration && 2 <= anyKind(derefAny(v)) && anyKind(derefAny(v)) <= 6 && parsesInt(param) ==> (result == nil) == (anyInt(derefAny(v)) <= intOf(param))
+//@ ensures [uint] derefAny(v) != nil && typeof(derefAny(v)) != time.Duration && 7 <= anyKind(derefAny(v)) && anyKind(derefAny(v)) <= 11 && parsesUint(param) ==> (result == nil) == (anyUint(derefAny(v)) <= uintOf(param))
+//@ ensures [float] derefAny(v) != nil && typeof(derefAny(v)) != time.Duration && (anyKind(derefAny(v)) == 13 || anyKind(derefAny(v)) == 14) && parsesFloat(param) ==> (result == nil) == (anyFloat(derefAny(v)) <= floatOf(param))
 
 //@ func validateNonZero :: v, name -> result
 //@ props C04
@@ -2261,3 +2270,14 @@ package ucfg
 //@ requires deref(opts) != nil
 //@ modifies deref(opts).activeFields
 //@ ensures [restore] deref(opts).activeFields == deref(parentFields)
+
+//@ func derefValue :: v -> r
+//@ props C04 C07
+//@ nonil
+//@ pure
+//@ rvwrites nothing
+//@ ensures [naming !unproved] r == derefAny(v)
+
+//@ func (parseState).finalize$1
+//@ props C07
+//@ pure
